@@ -207,6 +207,9 @@ func (r *Run) Violation(class, key string, witness any) {
 	r.vkeys[id] = struct{}{}
 	r.violations++
 	if r.violations > 25 {
+		if r.violations <= 400 {
+			fmt.Printf("VIOLATION-MORE property=%s class=%s key=%s\n", r.Prop, class, trunc(key, 300))
+		}
 		return
 	}
 	dir := filepath.Join(Root, "replays")
